@@ -270,6 +270,8 @@ func TestVerif_C12_Gjkr(t *testing.T) {
 
 	// streams of messages (specs/Admission/AdmissionLoop.tla): what the state keeps after 1..3 deliveries
 	const seqStep = "ephemeralKeyPairGenerationState"
+	h.w = verifadm.LoadLoopWorld(t) // the sequences are stated in their own (4-seat) world
+	h.validator = h.w.Validator()
 	verifadm.RunSequences(t, rep, "pkg/beacon/gjkr/"+seqStep, func(q *verifadm.Sequence) (verifadm.LoopState, string, error) {
 		var out verifadm.LoopState
 		st0, err := h.stateByNext(&verifadm.Case{Recv: q.Msgs[0].Recv, Excl: q.Excl}, seqStep)
